@@ -93,6 +93,9 @@ def do_check(prop, args, seed):
     cross = core.cross_check([f for r in results for f in r.get('cross', [])]) if os.environ.get('VERIF_CROSSCHECK', '0') not in ('', '0') else None
     for d in (cross or {}).get('disagreements', [])[:3]:
         print("SOLVER DISAGREEMENT %s said %s, z3 5.1 said %s" % (d['solver'], d['said'], d['z3_5_1']), file=sys.stderr)
+    second = None
+    if args.tier == 'thorough' and not args.mutant and getattr(prop, 'CROSSHAIR_KERNELS', None):
+        second = core.crosshair_kernels(prop.CROSSHAIR_KERNELS)
     OR = loader.load_orig(prop.MODULES)
     prop.setup_orig(OR)
     known, fixed = core.load_known(prop.ID)
@@ -147,7 +150,7 @@ def do_check(prop, args, seed):
     wall = time.time() - t0
     if not args.no_evidence and not args.mutant and not args.limit:
         write_evidence(prop, args.tier, seed, results, violations, known_hits, inconclusive, mismatches, nonrepro, wall,
-                       tv=(tv_n, len(tv_bad)), cross=cross)
+                       tv=(tv_n, len(tv_bad)), cross=cross, second=second)
     tot_paths = sum(r['paths'] for r in results)
     print("property=%s tier=%s shapes=%d paths=%d queries=%d validated=%d solver_s=%.1f wall=%.1fs violations=%d known=%d inconclusive=%d" % (
         prop.ID, args.tier, len(results), tot_paths, sum(r['queries'] for r in results),
@@ -161,7 +164,8 @@ def do_check(prop, args, seed):
     return core.EXIT_OK
 
 
-def write_evidence(prop, tier, seed, results, violations, known_hits, inconclusive, mismatches, nonrepro, wall, tv=(0, 0), cross=None):
+def write_evidence(prop, tier, seed, results, violations, known_hits, inconclusive, mismatches, nonrepro, wall, tv=(0, 0), cross=None,
+                   second=None):
     cov = set()
     for r in results:
         cov.update(tuple(x) for x in r.get('cov', []))
@@ -204,6 +208,7 @@ def write_evidence(prop, tier, seed, results, violations, known_hits, inconclusi
             extra=_sum_extra(results),
             translator_validation=dict(runs_on_repo_test_strings=tv[0], disagreements=tv[1]),
             cross_solver=({k: (v if k != 'disagreements' else len(v)) for k, v in cross.items()} if cross else 'not run in this tier'),
+            second_engine_crosshair_on_leaf_kernels=(second if second is not None else 'not run (thorough tier of C03/C04/C16 only)'),
             inconclusive=len(inconclusive) + len(mismatches) + len(nonrepro),
         ),
         assumptions=prop.ASSUMPTIONS,
